@@ -117,7 +117,7 @@ Qed.
 
 (* what a segment can teach the socket about the peer: the window (scaled as negotiated; unscaled
    for SYN segments), and - only from a SYN - the MSS and whether window scaling is in use *)
-Definition learned (s : socket) (r : tcp_repr) (s' : socket) : Prop :=
+Definition learned_core (s : socket) (r : tcp_repr) (s' : socket) : Prop :=
   (s_remote_win_len s' = s_remote_win_len s \/ s_remote_win_len s' = learned_window s r) /\
   (s_remote_mss s' = s_remote_mss s \/
    (r_control r = CSyn /\ s_remote_mss s' = s_remote_mss (tcp_apply_mss s r))) /\
@@ -125,10 +125,17 @@ Definition learned (s : socket) (r : tcp_repr) (s' : socket) : Prop :=
    (r_control r = CSyn /\
     s_remote_win_shift s' = (if is_some (r_window_scale r) then s_remote_win_shift s else 0))).
 
+(* ... or an RST that aborts a handshake returned the listening socket to LISTEN: everything
+   learned from the previous peer is forgotten *)
+Definition learned (s : socket) (r : tcp_repr) (s' : socket) : Prop :=
+  learned_core s r s' \/
+  (r_control r = CRst /\ s_state s = SynReceived /\ s_state s' = Listen /\
+   s_remote_win_len s' = 0 /\ s_remote_mss s' = tcp_DEFAULT_MSS).
+
 Lemma learned_txv : forall s r s', txv s' = txv s -> learned s r s'.
 Proof.
   intros s r s' E. destruct (txv_proj _ _ E) as (_ & _ & _ & _ & B5 & _ & _ & B8 & B9 & _).
-  unfold learned. auto.
+  left. unfold learned_core. auto.
 Qed.
 
 Lemma learned_window_eq : forall s s' r,
@@ -157,7 +164,10 @@ Definition proc_ghost (cx : ctx) (g : ghost) (s : socket) (r : tcp_repr) (g' : g
   (g_iss g' = g_iss g /\ g_stream g' = g_stream g /\ g_fin g' = g_fin g /\
    (g_phase g <> PSyn -> g_phase g' <> PSyn) /\
    exists d, 0 <= d /\ g_una g' = g_una g + d /\ (g_phase g = PSyn -> d <= 1) /\
-     (0 < d -> r_control r <> CRst /\ r_ack_number r = Some (sq (g_iss g + g_una g + d)))).
+     (0 < d -> r_control r <> CRst /\ r_ack_number r = Some (sq (g_iss g + g_una g + d)))) \/
+  (* an RST aborting the handshake of a listening socket: back to LISTEN, a blank epoch *)
+  (s_state s = SynReceived /\ r_control r = CRst /\ g_phase g = PSyn /\ g_fin g = false /\
+   g_stream g = [] /\ g' = g_fresh 0).
 
 Lemma g_ack_una : forall g d al (aof : bool),
   (g_phase g <> PSyn -> al = (if aof then d - 1 else d)) ->
@@ -177,6 +187,9 @@ Proof.
     + specialize (Haof eq_refl). discriminate.
     + specialize (Hfa eq_refl eq_refl). split; [lia|discriminate].
 Qed.
+
+Lemma reset_txv_like : forall s, s_remote_mss (tcp_reset s) = tcp_DEFAULT_MSS /\ True.
+Proof. intros. unfold tcp_reset. fld. auto. Qed.
 
 Theorem process_inv : forall cx g s ip r s' reply tags,
   inv g s -> ctx_ok cx -> repr_ok r ->
@@ -200,7 +213,7 @@ Proof.
        split; [eapply inv_timer_swap; eassumption|]. split; [left; apply same_epoch_refl|].
        split; [|left; reflexivity].
        destruct (txv_proj _ _ E2) as (_ & _ & _ & _ & B5 & _ & _ & B8 & B9 & _).
-       fld_in B5. fld_in B8. fld_in B9. unfold learned. auto. }
+       fld_in B5. fld_in B8. fld_in B9. left. unfold learned_core. auto. }
   assert (Hinv2 : inv g s2) by (eapply inv_txv; eassumption).
   assert (Hf2 : ack_facts s2 r) by (eapply ack_facts_txv; eassumption).
   destruct (txv_proj _ _ E2) as (X1 & X2 & X3 & X4 & X5 & X6 & X7 & X8 & X9 & X10).
@@ -213,27 +226,44 @@ Proof.
   pose proof (transition_spec _ _ _ _ _ _ _ _ E4 Hq1) as T. cbv zeta in T.
   destruct p3 as [t3 s3|t3 s3 rp3]; cbn [phase_sock is_ret] in T.
   2: { (* the table returned *)
-       injection H as <- <- <-. exists g. split; [|split; [left; apply same_epoch_refl|split; [|left; reflexivity]]].
-       - destruct T as [(T & _)|[(st' & tm & T & Htm & Hrel & Hret)|[T|T]]].
-         + eapply inv_txv; eassumption.
+       injection H as <- <- <-.
+       destruct T as [(T & _)|[(st' & tm & T & Htm & Hrel & Hret)|[T|[T|(K1 & K2 & _ & K4)]]]].
+       - exists g. split; [eapply inv_txv; eassumption|]. split; [left; apply same_epoch_refl|].
+         split; [apply learned_txv; congruence|left; reflexivity].
+       - exists g. split; [|split; [left; apply same_epoch_refl|split; [|left; reflexivity]]].
          + assert (Hc : c = CRst) by (apply Hret; reflexivity). unfold st_rel in Hrel. rewrite Hc in Hrel.
            eapply inv_state_rst; eassumption.
-         + destruct T as (_ & _ & X & _). discriminate.
-         + destruct T as (_ & _ & X & _). discriminate.
-       - destruct T as [(T & _)|[(st' & tm & T & Htm & Hrel & Hret)|[T|T]]].
-         + apply learned_txv. congruence.
          + destruct (txv_proj _ _ T) as (_ & _ & _ & _ & B5 & _ & _ & B8 & B9 & _).
-           fld_in B5. fld_in B8. fld_in B9. unfold learned. rewrite B5, B8, B9, X5, X8, X9. auto.
-         + destruct T as (_ & _ & X & _). discriminate.
-         + destruct T as (_ & _ & X & _). discriminate. }
+           fld_in B5. fld_in B8. fld_in B9. left. unfold learned_core. rewrite B5, B8, B9, X5, X8, X9. auto.
+       - destruct T as (_ & _ & X & _). discriminate.
+       - destruct T as (_ & _ & X & _). discriminate.
+       - (* handshake reset of a listening socket: pristine LISTEN, a blank epoch *)
+         pose proof Hinv2 as ((Hwf & Hcap & Ha & Hlen & _ & _ & _ & _ & _ & Hph & _) & _).
+         rewrite K1 in Hph. unfold phase_ok in Hph.
+         destruct (g_phase g) eqn:P; try tauto. destruct Hph as (A0 & L0 & G0).
+         assert (Hcr : r_control r = CRst) by (apply Hq2; exact K2).
+         exists (g_fresh 0). subst s3.
+         destruct (reset_fields s2) as (R1 & R2 & R3 & R4 & R5 & R6 & R7).
+         assert (Rm : s_remote_mss (tcp_reset s2) = tcp_DEFAULT_MSS) by (destruct (reset_txv_like s2); assumption).
+         revert R1 R2 R3 R4 R5 R6 R7 Rm. generalize (tcp_reset s2). intros s0 R1 R2 R3 R4 R5 R6 R7 Rm.
+         split; [|split; [apply new_epoch_fresh|split]].
+         + apply fresh_inv; unfold tcp_set_state; fld; rewrite ?R1, ?R2, ?R3, ?R4, ?R5, ?R6;
+           [apply rb_clear_wf; exact Hwf | exact Hcap | reflexivity | split; [apply Z.le_refl|reflexivity]
+           | reflexivity | reflexivity | unfold max_window; split; [apply Z.le_refl|discriminate]
+           | exact I | exact I | discriminate].
+         + right. unfold tcp_set_state. fld. rewrite R4, Rm.
+           split; [exact Hcr|]. split; [congruence|]. auto.
+         + right. right. right. split; [congruence|]. split; [exact Hcr|]. split; [exact P|].
+           split; [exact G0|]. split; [apply l_len_zero_nil; lia|reflexivity]. }
   (* the table continues: c is not RST *)
   assert (Hnrst : r_control r <> CRst).
   { intro X. apply Hq2 in X.
-    destruct T as [(_ & T)|[(st' & tm & _ & _ & _ & Hret)|[T|T]]].
+    destruct T as [(_ & T)|[(st' & tm & _ & _ & _ & Hret)|[T|[T|T]]]].
     - destruct (T eq_refl) as (_ & _ & Y). congruence.
     - apply Hret in X. discriminate.
     - destruct T as (_ & Y & _). congruence.
-    - destruct T as (_ & Y & _). congruence. }
+    - destruct T as (_ & Y & _). congruence.
+    - destruct T as (_ & _ & Y & _). discriminate. }
   destruct Hinv2 as (Htx2 & Htm2).
   destruct (ack_len_spec _ _ _ _ _ _ Htx2 Hr Hf2 Hnrst Hncl2 E3)
     as (d & Hd & Hal & Hsyn & Haof & Hnaof & Hack).
@@ -257,7 +287,8 @@ Proof.
      (timer_is_idle (s_timer s3) = true -> timer_is_idle (s_timer s2) = true) /\
      st_next (s_state s2) c aof (s_state s3)) \/
     (c = CSyn /\ (s_state s2 = Listen \/ s_state s2 = SynSent))).
-  { destruct T as [(T & Tc)|[(st' & tm & T & Htm & Hrel & Hret)|[T|T]]].
+  { destruct T as [(T & Tc)|[(st' & tm & T & Htm & Hrel & Hret)|[T|[T|T5]]]];
+      [| | | |destruct T5 as (_ & _ & Y & _); discriminate].
     - left. destruct (txv_proj _ _ T) as (B1 & B2 & B3 & B4 & B5 & B6 & B7 & B8 & B9 & B10).
       repeat (split; [assumption|]). split; [congruence|].
       left. destruct (Tc eq_refl) as (C1 & C2 & _). auto.
@@ -304,9 +335,9 @@ Proof.
       split; [reflexivity|]. split; [exists []; symmetry; apply app_nil_r|].
       split; [lia|]. split; [lia|]. auto.
     + destruct Htail as (_ & _ & _ & _ & F3 & _ & F7 & F8 & _).
-      unfold learned. rewrite F3, F7, F8, C8, C9, X8, X9.
+      left. unfold learned_core. rewrite F3, F7, F8, C8, C9, X8, X9.
       split; [right; apply learned_window_eq; left; congruence|]. auto.
-    + right. right. unfold g_ack at 1 2 3. cbn [g_iss g_stream g_fin].
+    + right. right. left. unfold g_ack at 1 2 3. cbn [g_iss g_stream g_fin].
       split; [reflexivity|]. split; [reflexivity|]. split; [reflexivity|].
       destruct (g_ack_una g d al aof) as (U1 & U2); try assumption.
       * intros P. destruct (Hsyn P) as (A1 & A2 & A3). unfold phase_ok in Hph. rewrite P in Hph.
@@ -337,7 +368,8 @@ Proof.
        s_remote_mss s3 = s_remote_mss (tcp_apply_mss s2 r) /\
        s_remote_win_shift s3 = (if is_some (r_window_scale r) then s_remote_win_shift s2 else 0) /\
        s_syn_unacked_in_fin_wait s3 = s_syn_unacked_in_fin_wait s2)).
-    { destruct T as [(_ & Tc)|[(st' & tm & _ & _ & Hrel & _)|[T|T]]].
+    { destruct T as [(_ & Tc)|[(st' & tm & _ & _ & Hrel & _)|[T|[T|T5]]]];
+        [| | | |destruct T5 as (_ & _ & Y & _); discriminate].
       - destruct (Tc eq_refl) as (C1 & _). destruct Cst as [E|E]; rewrite E in C1; tauto.
       - unfold st_rel in Hrel. rewrite Csyn in Hrel.
         destruct Cst as [E|E]; rewrite E in Hrel; cbn [cls] in Hrel;
@@ -375,7 +407,7 @@ Proof.
         -- rewrite K1, Etx, L0. unfold phase_ok, g_ack, g1. cbn. rewrite Z.eqb_refl.
            repeat split; (lia || reflexivity).
       * right. unfold new_epoch, g_ack, g1. cbn. auto.
-      * unfold learned. rewrite F3, F7, F8, K8, K9, Hmss, X9.
+      * left. unfold learned_core. rewrite F3, F7, F8, K8, K9, Hmss, X9.
         split; [right; apply learned_window_eq; right; exact Hcs|]. auto.
       * right. left. split; [congruence|]. split; [exact Hcs|]. split; [exact P|]. split; [exact G0|].
         split; [apply l_len_zero_nil; lia|]. unfold g_ack, g1. cbn. rewrite Z.eqb_refl. auto.
@@ -408,9 +440,9 @@ Proof.
         -- left. unfold same_epoch, g_ack, g1. cbn [g_iss g_stream g_acked g_hw g_fin].
            split; [reflexivity|]. split; [exists []; symmetry; apply app_nil_r|].
            split; [lia|]. split; [lia|]. auto.
-        -- unfold learned. rewrite F3, F7, F8, K8, K9, Hmss, X9.
+        -- left. unfold learned_core. rewrite F3, F7, F8, K8, K9, Hmss, X9.
            split; [right; apply learned_window_eq; right; exact Hcs|]. auto.
-        -- right. right. unfold g_ack, g1. cbn [g_iss g_stream g_fin g_phase g_acked].
+        -- right. right. left. unfold g_ack, g1. cbn [g_iss g_stream g_fin g_phase g_acked].
            split; [reflexivity|]. split; [reflexivity|]. split; [reflexivity|].
            split; [congruence|]. exists 1. split; [lia|].
            split; [unfold g_una; cbn [g_phase g_acked]; rewrite P; destruct (Z.eqb_spec 1 0); lia|].
@@ -433,9 +465,9 @@ Proof.
         -- left. unfold same_epoch, g_ack. cbn [g_iss g_stream g_acked g_hw g_fin].
            split; [reflexivity|]. split; [exists []; symmetry; apply app_nil_r|].
            split; [lia|]. split; [lia|]. auto.
-        -- unfold learned. rewrite F3, F7, F8, K8, K9, Hmss, X9.
+        -- left. unfold learned_core. rewrite F3, F7, F8, K8, K9, Hmss, X9.
            split; [right; apply learned_window_eq; right; exact Hcs|]. auto.
-        -- right. right. unfold g_ack. cbn [g_iss g_stream g_fin g_phase g_acked].
+        -- right. right. left. unfold g_ack. cbn [g_iss g_stream g_fin g_phase g_acked].
            split; [reflexivity|]. split; [reflexivity|]. split; [reflexivity|].
            split; [congruence|]. exists 0. split; [lia|].
            split; [unfold g_una; cbn [g_phase g_acked]; rewrite P, Z.eqb_refl; lia|].
